@@ -14,16 +14,16 @@ META = dict(
 def suites(tier):
     jobs = []
     q = tier == "quick"
-    for kind, nmax in ((0, 4 if q else 6), (1, 3 if q else 4)):
+    for kind, nmax in ((0, 4 if q else 7), (1, 3 if q else 5)):
         cfg = dict(kind=kind, nmin=0, nmax=nmax)
         jobs.append(dict(id=jid("awk", cfg), func="zzH_C10_awk", cfg=cfg))
     for delim in (",", "ab"):
-        for kind, nmax in ((0, 4 if q else 5), (1, 3 if q else 4)):
+        for kind, nmax in ((0, 4 if q else 6), (1, 3 if q else 5)):
             cfg = dict(kind=kind, nmin=0, nmax=nmax)
             jobs.append(dict(id=jid("str" + delim, cfg), func="zzH_C10_str", cfg=cfg, cfgs=dict(delim=delim)))
-    cfg = dict(nmin=0, nmax=4 if q else 5)
+    cfg = dict(nmin=0, nmax=4 if q else 6)
     jobs.append(dict(id=jid("range", cfg), func="zzH_C10_range", cfg=cfg))
-    cfg = dict(ntmax=3 if q else 4, lim=4 if q else 5)
+    cfg = dict(ntmax=3 if q else 4, lim=4 if q else 7)
     jobs.append(dict(id=jid("transform", cfg), func="zzH_C10_transform", cfg=cfg))
     jobs.append(dict(id="nth", func="zzH_C10_nth", cfg={}))
     return [src_suite("src", jobs)]
